@@ -47,6 +47,13 @@ Section C11.
   Proof. intros HF Hu. unfold restrict_spec. rewrite Hu. apply rspec_const. exact HF. Qed.
   Theorem C11_false_care_set vs (F : bfun) e : restrict_spec vs F (fun _ => false) e = false.
   Proof. unfold restrict_spec. replace (unsat vs (fun _ => false) e) with true; [reflexivity|]. symmetry. unfold unsat. apply forallb_forall. reflexivity. Qed.
+  (* termination: for every reachable state and live handles there is a fuel bound (a multiple of the number of variable
+     levels) from which on the step yields no result ONLY IF the node table filled up on the way ("Storage is full") *)
+  Theorem C11_restrict_fuel_bound mr f g rf rg :
+    reachable mr -> liveh mr f rf -> liveh mr g rg ->
+    exists bound, forall fuel, (bound <= fuel)%nat -> mstep fuel mr (HRestrict f g) = None ->
+      exists s', sext (store mr) s' /\ Inv s' /\ storage_full node (tbl s').
+  Proof. exact (restrict_step_fuel_bound nhash khash bmask cmask0 smask0 capacity cap_ok mr f g rf rg). Qed.
 End C11.
 
 Print Assumptions C11_restrict.
@@ -55,3 +62,4 @@ Print Assumptions C11_one_when_g_implies_f.
 Print Assumptions C11_commutes_with_negation.
 Print Assumptions C11_constant_f.
 Print Assumptions C11_false_care_set.
+Print Assumptions C11_restrict_fuel_bound.
